@@ -8,7 +8,7 @@
               (computed on the list model: the view is skipn off of the buffer), "na" when the view is nil or shorter
    alloc cfg.. state frame
        model: "0" | "+" (allocation counter of Model/ParseAlloc.v zero / non-zero), spec "-" *)
-From PV Require Import Base.Text Base.Slice Model.Parse Model.ParseShow Model.ParseKnown Model.ParseAlloc Model.ParseAlias.
+From PV Require Import Base.Text Base.Slice Model.Parse Model.ParseShow Model.ParseKnown Model.ParseAlloc Model.ParseAlias Model.ParseCalls.
 Open Scope string_scope.
 Open Scope N_scope.
 
@@ -93,6 +93,13 @@ Definition dispatch (kind : string) (args : list string) : string :=
         | Some c, Some st, Some b => out3 (show_allocs (parse_allocs c (fun _ => st) (of_bytes b))) "-" "-"
         | _, _, _ => BADARGS
         end
+    | _ => BADARGS
+    end
+  else if String.eqb kind "calls" then
+    (* calls BRANCH | calls branches: the set of functions a branch of Parse calls (Model/ParseCalls.v), the same text
+       the harness extracts from layer_frame.go with go/ast *)
+    match args with
+    | [b] => match show_calls b with Some txt => out3 txt "-" "-" | None => out3 "no-such-branch" "-" "-" end
     | _ => BADARGS
     end
   else BADARGS.
